@@ -224,9 +224,14 @@ fn main() {
             ks.sort();
             ks.dedup();
         }
+        if let Some(k1) = a.kv.get("k") {
+            ks = vec![k1.parse().unwrap()];
+        }
         for k in ks {
             for (mi, permanent) in [false, true].iter().enumerate() {
-                let policy = ["keep", "rollback", "reopen"][((k as usize) + mi + wi) % 3];
+                let policy0 = ["keep", "rollback", "reopen"][((k as usize) + mi + wi) % 3];
+                let forced = a.get("policy", "");
+                let policy = if forced.is_empty() { policy0 } else { forced.as_str() };
                 if locks && *permanent {
                     continue;
                 }
@@ -235,7 +240,7 @@ fn main() {
                 let plan = if locks {
                     FaultPlan { k, permanent: false, ops: vec!["open_write".into(), "flush".into()], skip_locks: false, after_effect: false, only_locks: true, ..Default::default() }
                 } else {
-                    FaultPlan { k, permanent: *permanent, ops: vec![], skip_locks: true, after_effect: (k % 7 == 3), only_locks: false, ..Default::default() }
+                    FaultPlan { k, permanent: *permanent, ops: a.kv.get("fop").map(|o| vec![o.clone()]).unwrap_or_default(), skip_locks: true, after_effect: (k % 7 == 3), only_locks: false, only_role: a.get("role", ""), ..Default::default() }
                 };
                 run_one(&tracer, cfg, ops, Some(plan), policy, json!({"workload":wi,"k":k,"permanent":permanent,"policy":policy,"n":n,"locks":locks}), false);
                 total += 1;
